@@ -17,7 +17,7 @@ prop('C09',
           'EBNF_to_BNF._generate_repeats builds vs the Lean genTree (the function repeat_counts is about) for (mn, mx) pairs; (c) end to end: grammars '
           'x~mn..mx / x? / x* / x+ with x a terminal, rule, group or template argument, rule side and terminal side, Earley and LALR, parsed on k '
           'repetitions for k around the bounds: accepted iff the theorem says k is in range, and exactly k consecutive children without helper nodes. '
-          'A case is non-trivial when its bounds reach the factored branch (mx >= REPEAT_BREAK_THRESHOLD) or it is an end-to-end parse; distinct by canonical hash.',
+          'A case is non-trivial when its bounds reach the factored branch (mx >= REPEAT_BREAK_THRESHOLD) or it is an end-to-end parse; distinct by canonical hash. Terminal side: repeated sequences with alternation groups and literal brackets. Rule side: several operators on one item side by side (A? A~0..2, A~1..3 A~1..3, (A?)~60, ...) must build and match exactly the counts between the sums of the bounds.',
      not_proved=['terminal side: that the regex quantifier {n,m} produced by TerminalTreeToPattern.expr matches n..m occurrences is a property of Python re (parameter); checked end to end only',
                  'that helper rules are invisible in the tree follows from C03 buildList_eq_shapeList (helper names start with "_"); the naming itself is checked by correspondence'],
      assumptions=['the regex engine implements {n,m} quantifiers as counted repetition'],
@@ -81,7 +81,7 @@ prop('C07',
      rule='random terminal sets (keyword/identifier pairs, prefixes, priorities -1..2, i flags on strings and regexps, ordered alternations, every 25th case with 101-125 extra terminals) in flat '
           'and sequential LALR grammars x 3 texts x str/bytes: (a) Lark.lex token list or UnexpectedCharacters(pos, allowed) vs the Lean model lexBasic; (b) the contextual lexer driven token by token through '
           'parse_interactive, with the terminal set of each parser state recorded, vs lexCtx (incl. the root-lexer retry that turns the error into UnexpectedToken); (c) with at most one regexp terminal: '
-          'basic parse ok => contextual parse ok with the same tree. Regex facts come from individually compiled patterns. Non-trivial = two terminals match at one position; distinct by canonical hash.',
+          'basic parse ok => contextual parse ok with the same tree. Regex facts come from individually compiled patterns. Non-trivial = two terminals match at one position; distinct by canonical hash. The basic lexer of the saved-and-loaded parser (Lark.save/Lark.load) is compared with the same model; regexps carry i/m/s/x flags.',
      not_proved=['the contextual variant lexCtx (per-state sub-lexers, root retry) has only the list lemma contextual_refines_basic; its executable form is tied by correspondence'],
      assumptions=['Python re: a top-level alternation picks the first matching branch with that branch\'s own preferred length; sre max_width as computed by lark'],
      level_text='Theorems: the scan order is the documented total order (sorted permutation; key re-extracted from source and compared by decide); the lexer loop tiles the text with first-match pieces up to the end or the '
@@ -101,7 +101,7 @@ prop('C01',
           '{basic, dynamic, dynamic_complete} x texts (60% sampled sentences, a third of them mutated by delete/insert/truncate/reverse, plus random strings). The Lean recogniser `accepts` runs on the lattice the '
           'PROPERTY prescribes (basic: the token chain; dynamic: longest member prefix per terminal and position; dynamic_complete: every member prefix; built with re.fullmatch on substrings, not with lark\'s '
           'procedure); by accepts_iff its verdict is membership in the language, compared with parse() succeeding; every chart column is also compared with lark\'s columns[i] and to_scan (snapshots through a wrapper on '
-          'predict_and_complete). Non-trivial = non-empty text; distinct by canonical hash.',
+          'predict_and_complete). Non-trivial = non-empty text; distinct by canonical hash. Loader stream: a grammar AST rendered as written (anonymous literals incl. punctuation whose automatic names collide with user terminals, unreachable rule chains holding keywords, unused terminals) and as meant (own reachability, explicit names): both must accept the same texts under basic, dynamic and dynamic_complete.',
      not_proved=['EBNF-to-BNF compilation is outside this model (C09 covers the repetition operators, C03 the shaping); the grammars here are plain BNF plus %ignore',
                  'compile_error_iff_duplicate_alternatives (last sentence of C01) is checked only as "construction of duplicate-free grammars never fails or hangs"'],
      assumptions=['Python re.fullmatch decides membership of a substring in a terminal\'s regular language', 'the terminal pool stays outside known finding F6 (ordered alternation / lazy quantifiers)'],
@@ -120,7 +120,7 @@ prop('C08',
      rule='rejected inputs of the C01 stream (random CFGs x Earley lexers; sampled sentences mutated by delete/insert/truncate/reverse, random strings): the exception class, position (offset, line, column), and the '
           'expected/allowed set must be those of the last non-empty column of the verified chart: dynamic lexers UnexpectedCharacters at that offset with exactly the terminals expected there; basic lexer UnexpectedToken '
           'at that token with a superset; UnexpectedEOF with the final column\'s expectations when the whole text is a viable prefix. LALR: random grammars x token strings, the model LR driver on lark\'s own exported table '
-          'gives the index of the offending token; accepts() is compared with trial feeding and must be a subset of expected. Any other exception type or a timeout is a violation. Non-trivial: every rejected case; distinct by hash.',
+          'gives the index of the offending token; accepts() is compared with trial feeding and must be a subset of expected. Any other exception type or a timeout is a violation. Non-trivial: every rejected case; distinct by hash. Earley grammars carry aliases. LALR: a third of the parsers read their tokens through a post-lexer that re-creates every token with shifted coordinates; an unexpected $END must carry the coordinates of the last token fed.',
      not_proved=['exactness of the dynamic expected set in the direction "every reported terminal can legally come next" needs productive nonterminals; it is stated as backed-by-a-derivation (earley_expected_backed) and sampled',
                  'the claim that no other exception type escapes is observed on every generated case, not proved'],
      assumptions=['grammars with a post-lexer (Indenter) may raise DedentError and are outside this check (C18)'],
@@ -155,11 +155,13 @@ prop('C02',
      design_ref='DESIGN.md §5 C02')
 
 prop('C03',
-     modules=['LarkVerif.Shape', 'LarkVerif.Props.C03'],
-     theorems=['Props.C03.built_tree_is_documented_shaping', 'Props.C03.placeholders_in_grammar_order', 'Props.C03.expand1_single', 'Props.C03.alias_never_inlined', 'ShapeProto.applyPlan_eq_spec'],
+     modules=['LarkVerif.Shape', 'LarkVerif.RuleSize', 'LarkVerif.Extracted', 'LarkVerif.Props.C03'],
+     theorems=['Props.C03.built_tree_is_documented_shaping', 'Props.C03.placeholders_in_grammar_order', 'Props.C03.expand1_single', 'Props.C03.alias_never_inlined', 'ShapeProto.applyPlan_eq_spec',
+               'Props.C03.placeholder_count_is_longest_alternative', 'Props.C03.nested_placeholder', 'Props.C03.find_rule_size_source_is_modelled'],
      fingerprints=['lark/parse_tree_builder.py:maybe_create_child_filter', 'lark/parse_tree_builder.py:ChildFilter.__call__', 'lark/parse_tree_builder.py:ChildFilterLALR.__call__',
                    'lark/parse_tree_builder.py:ChildFilterLALR_NoPlaceholders.__call__', 'lark/parse_tree_builder.py:ExpandSingleChild.__call__', 'lark/parse_tree_builder.py:ParseTreeBuilder._init_builders',
-                   'lark/parse_tree_builder.py:ParseTreeBuilder.create_callback', 'lark/load_grammar.py:EBNF_to_BNF.expr', 'lark/load_grammar.py:EBNF_to_BNF._add_rule', 'lark/load_grammar.py:EBNF_to_BNF.maybe', 'lark/load_grammar.py:FindRuleSize._will_not_get_removed'],
+                   'lark/parse_tree_builder.py:ParseTreeBuilder.create_callback', 'lark/load_grammar.py:EBNF_to_BNF.expr', 'lark/load_grammar.py:EBNF_to_BNF._add_rule', 'lark/load_grammar.py:EBNF_to_BNF.maybe', 'lark/load_grammar.py:FindRuleSize._will_not_get_removed',
+                   'lark/load_grammar.py:FindRuleSize._args_as_int', 'lark/load_grammar.py:FindRuleSize.expansion', 'lark/load_grammar.py:FindRuleSize.expansions'],
      rule='EBNF level: random grammar ASTs are rendered to Lark EBNF and, independently, desugared by the harness into plain BNF with explicit inlined helper rules (kept-all under ! rules); both are compiled by lark and must agree (Earley, explicit ambiguity, acyclic only) on language and tree sets. random Lark sources using ?, !, _rules, _TERMINALS, aliases, [..], ?, *, +, ~n, ~n..m, groups, templates, priorities x keep_all_tokens x maybe_placeholders, compiled by the real front end; sentences sampled '
           'from the compiled rules; engines earley/{dynamic,basic,dynamic_complete}, lalr/{contextual,basic}, cyk. For each engine the RAW derivation it found is obtained by running the same engine with raw '
           '(rule, children) builders in place of the callback chain; the Lean buildList (proved equal to the documented shapeList) turns it into the expected tree (node and token identities carried as unique labels), '
@@ -174,15 +176,16 @@ prop('C03',
      design_ref='DESIGN.md §5 C03')
 
 prop('C13',
-     modules=['LarkVerif.Shape', 'LarkVerif.Heap', 'LarkVerif.LR', 'LarkVerif.LRComplete', 'LarkVerif.Props.C13'],
-     theorems=['Props.C13.denotation_frame', 'Props.C13.fork_independent', 'Props.C13.in_place_adoption_is_pure', 'Props.C13.feed_then_eof_eq_parse', 'Props.C13.resume_eq_parse'],
+     modules=['LarkVerif.Shape', 'LarkVerif.Heap', 'LarkVerif.LR', 'LarkVerif.LRComplete', 'LarkVerif.LRError', 'LarkVerif.Props.C13'],
+     theorems=['Props.C13.denotation_frame', 'Props.C13.fork_independent', 'Props.C13.in_place_adoption_is_pure', 'Props.C13.feed_then_eof_eq_parse', 'Props.C13.resume_eq_parse',
+               'Props.C13.error_state_is_a_parser_state', 'Props.C13.error_state_has_no_action', 'Props.C13.resume_from_error_state_sound', 'LRProto.reduceLoop_vs_reductionsOn'],
      fingerprints=['lark/parsers/lalr_parser_state.py:ParserState.copy', 'lark/parsers/lalr_parser_state.py:ParserState.feed_token', 'lark/parsers/lalr_interactive_parser.py:InteractiveParser.copy',
                    'lark/parsers/lalr_interactive_parser.py:InteractiveParser.as_immutable', 'lark/parsers/lalr_interactive_parser.py:InteractiveParser.accepts', 'lark/parse_tree_builder.py:ChildFilterLALR.__call__',
                    'lark/tree.py:Tree.__deepcopy__'],
      rule='random feature-rich LALR grammars (C03 generator) x propagate_positions/maybe_placeholders/keep_all_tokens; 3 token sequences sharing prefixes (a sampled sentence and mutations); a random tree of 6-22 operations over '
           'interactive parsers: feed_token (in place / ImmutableInteractiveParser.feed_token), copy(), as_immutable(), as_mutable(), switching a fork to another sequence with the same consumed prefix, accepts() vs trial feeding of '
           'every terminal; then every cursor is finished in random order (immutable ones twice, after all others ran). Every result (tree with all meta fields incl. container_*) or error index must equal parse() of the cursor\'s own '
-          'sequence. Non-trivial = more than 2 cursors; distinct by canonical hash of the operation log.',
+          'sequence. Non-trivial = more than 2 cursors; distinct by canonical hash of the operation log. After every operation the state stack is compared with a reference stepper over lark\'s own table and with the Lean reduceLoop/reductionsOn (driver op lr_feed); a cursor whose feed raised goes on from its error state with the offending token dropped and must end as stepping the table does. Lexer-driven forks: parse_interactive(text) advanced half way, as_immutable()/copy(), exhaust_lexer in random order, each must end with parse(text).',
      not_proved=['that copy() (deep copy of the value stack) establishes the disjointness hypothesis of fork_independent is observed (results compared), not proved; Tree meta sharing was the one violation (F10, fixed)',
                  'accepts() exactness is compared with trial feeding here and with the model driver in the C02 check'],
      assumptions=['copy.deepcopy on lists/Trees/Tokens copies every reachable mutable list'],
@@ -237,7 +240,7 @@ prop('C16',
           'v_args(inline=True), v_args(tree=True); callbacks are free constructors ("cb", name, children), so equal results under them imply equal results under every pure callback). Per sampled sentence: '
           'Lark(transformer=T).parse vs T.transform(Lark().parse) vs the Lean embedded chain buildListT and the Lean transform-after trV (both on the raw derivation of the real parser); Transformer, Transformer_NonRecursive, '
           'Transformer_InPlace, Transformer_InPlaceRecursive on deep copies of the parse tree: results, multiset of calls (once per node) and children-before-parents order, vs the Lean tr / runStack. '
-          'Non-trivial = at least one callback applies; distinct by canonical hash.',
+          'Non-trivial = at least one callback applies; distinct by canonical hash. A fifth of the chosen callbacks return None.',
      not_proved=['Transformer_InPlace / Transformer_InPlaceRecursive have no Lean model; they are compared with Transformer on every case', 'known finding F8: callbacks on inlined (_) rules are excluded (hypothesis of the theorem)'],
      assumptions=['callbacks are pure and total; __default__/__default_token__ at their defaults; Discard and meta arguments excepted as the property says'],
      level_text='Theorems: for every derivation (inlined rules not ?-rules) and arbitrary rule/token callbacks not attached to inlined rules, the embedded callback chain computes exactly Transformer.transform of the plain tree; '
@@ -256,7 +259,7 @@ prop('C12',
           'completed construction, crash during the write (a strict prefix of the rewritten file is left), external truncation at a random offset, deletion, a complete file written for another request. After every '
           'operation the real file is classified (absent / undecodable / complete file of request r, by its header line learned from lark itself) and compared with the verified state machine; every completed construction '
           'must not raise and must behave (10 probe inputs: trees with positions or error class/position) like an uncached build of its own request and current import content. Non-trivial = the history contains a fault; '
-          'distinct by canonical hash.',
+          'distinct by canonical hash. Requests also differ in priority (None/normal/invert) on a grammar with colliding prioritised terminals, and import their module through a package loader (PackageResource in used_files).',
      not_proved=['corruption of the pickled body that keeps framing and header valid is known finding F5 (no checksum) and is outside the modelled fault set; body byte flips are therefore not generated',
                  'pickle (self-delimiting) and sha256/hash injectivity are parameters (Env.key_inj/hash_inj)'],
      assumptions=['pickle.load fails on every strict prefix of a pickle', 'sha256 is injective on the inputs met', 'a non-atomic write may leave any prefix'],
@@ -295,7 +298,7 @@ prop('C10',
           'interleavings of three) through the first use of a fresh instance with a user lexer callback are executed with a sys.settrace gate scheduler (gates: read _scanner, assign callback, [merge loop], return of _build_scanner, '
           'read callback) and compared with the Lean small-step run; every token must carry the callback\'s effect. (b) 4 free-running threads x several rounds on fresh instances (switch interval 1 microsecond) for LALR/Earley configurations. '
           '(c) random histories of 3-9 calls (parse, lex, scan, parse_interactive; succeeding, failing, generators abandoned after k items; other instances created in between; every fourth history with a stateful Indenter post-lexer) on ONE '
-          'instance, each call compared with the same call on a fresh instance. Non-trivial: schedules that interleave, histories of > 2 calls; distinct by canonical hash.',
+          'instance, each call compared with the same call on a fresh instance. Non-trivial: schedules that interleave, histories of > 2 calls; distinct by canonical hash. A quarter of the histories use instances that share one cache location under differing options (priority None/normal/invert, keep_all_tokens, maybe_placeholders, lexer, propagate_positions): every instance created through the location is compared with an uncached build of its own options.',
      not_proved=['history independence of the whole instance (search scanner, per-state lexers, PatternRE._width, TreeMatcher cache) has no Lean invariant yet: it is compared call by call against fresh instances',
                  'atomicity granularity (one attribute read/write under the GIL) is assumed; free-threaded builds and C-level races inside re are outside the model'],
      assumptions=['attribute reads/writes are atomic under the GIL', 'user callbacks are stateless (the property excludes stateful ones)'],
@@ -313,7 +316,7 @@ prop('C17',
      rule='(a) random names/prefixes/alias tables through the real _get_mangle vs the Lean mangle; (b) a random grammar is split into a main file and a module (optionally a nested module imported by the module): imports with and '
           'without "->" renames, inlined _helper rules, a local rule named like a non-imported module rule, %override and %extend of imported rules, an imported template; the module files are written to a temp directory and the '
           'importing grammar is compared with a hand-inlined text produced by the generator itself (independent of lark\'s import code): both must build or both fail, and on 6 inputs each (Earley explicit ambiguity and LALR) '
-          'give the same error class or the same trees modulo the documented module__ prefix. Non-trivial: every split; distinct by canonical hash.',
+          'give the same error class or the same trees modulo the documented module__ prefix. Non-trivial: every split; distinct by canonical hash. Module rules and overriding definitions carry their own ?/! modifiers; a third of the cases run with keep_all_tokens=True.',
      not_proved=['_remove_unused (pruning), %override/%extend and template substitution are compared against the hand-inlined text, not proved', 'freedom from clashes with local names is sampled (local rule named like a non-imported module rule)'],
      assumptions=['module prefixes do not begin with an underscore (hypothesis of mangle_is_injective)'],
      level_text='Theorems: an injective renaming of nonterminals preserves the language exactly; _get_mangle (mirrored in Lean, compared with the real function) is injective on non-aliased names, preserves the leading-underscore (inlining) '
@@ -348,7 +351,7 @@ prop('C05',
      rule='random prioritised ambiguous grammars (rule priorities -2..3, terminal priorities, inlined/?-rules, empty alternatives) x {basic, dynamic, dynamic_complete} x priority in {normal, invert, None}: the derivation the real parser '
           'chose (recovered with raw builders) must be one of the brute-force derivations, and for grammars without directly empty alternatives its total priority (rule priorities as written, plus terminal priorities under the dynamic lexers) '
           'must be the maximum (minimum under invert) over all derivations; the real SPPF is exported (tree-unfolded, with ForestSumVisitor\'s weights) and its root priority compared with the Lean prio and best(derivs); a batch of '
-          'parses is repeated in subprocesses under 3 (thorough: 12) PYTHONHASHSEED values and must be byte-identical. Non-trivial = more than one derivation; distinct by canonical hash.',
+          'parses is repeated in subprocesses under 3 (thorough: 12) PYTHONHASHSEED values and must be byte-identical. Non-trivial = more than one derivation; distinct by canonical hash. The built-in precedence clause is checked on the chosen derivation: a directly empty alternative may be used only where no other alternative of the rule consists of nullable symbols only (acyclic grammars). Prioritised rules also carry [x] items (separate RuleOptions per alternative) and an overlapping terminal.',
      not_proved=['the choice function of ForestToParseTree (first family in sort order) and its agreement with the DP value is compared per case, not proved', 'the empty-alternative precedence clause is not checked beyond "the result is a derivation"',
                  'independence from hash order is sampled across PYTHONHASHSEED values (Lean cannot exhibit CPython set iteration order)', 'cyclic grammars: optimality not claimed'],
      assumptions=['acyclic grammars without directly empty alternatives for the optimality clause'],
@@ -364,7 +367,7 @@ prop('C20',
      rule='random ambiguous/nullable/cyclic grammars x {basic, dynamic, dynamic_complete}: the forest root from ambiguity="forest" is transformed with TreeForestTransformer(resolve_ambiguity=False), the _ambig nodes expanded, and the set of '
           'unshaped trees compared with the brute-force derivation set (none missing, none extra, none twice); resolve_ambiguity=True must give a member; is_ambiguous must be False for a single derivation; ForestVisitor (plain and '
           'single_visit), ForestTransformer, ForestSumVisitor and both TreeForestTransformer settings must terminate on every forest including cyclic ones (8 s guard), with on_cycle counted. Non-trivial = more than one derivation or cyclic; '
-          'distinct by canonical hash.',
+          'distinct by canonical hash. Tiling stream: terminals that may contain the ignored characters, dynamic and dynamic_complete: every tree encoded by the explicit result and by the forest must tile the input (tokens ordered, disjoint, matching their terminal; every gap ignored text). One overlapping terminal AB: /[ab]/ with a derivation oracle that reads a token as any terminal matching it.',
      not_proved=['visitor termination (measure: nodes not yet visited + stack) is observed under a time guard, not proved', 'forest soundness is compared with the enumeration, not proved'],
      assumptions=['the brute-force enumerator is an independent oracle'],
      level_text='Theorem: every derivation of the input is present in the forest with all its nodes and packed families (completeness over the chart proved correct in C01). The real forest is expanded and compared with the brute-force '
@@ -380,7 +383,7 @@ prop('C19',
      rule='random feature-rich grammars (C03 generator, maybe_placeholders=False; 40% with multi-character keywords, identifiers, numbers and punctuation to exercise the spacing rule) filtered to the supported class (every '
           'filtered terminal a string literal, every alternative keeps an unfiltered symbol other than the rule itself, no derivation cycle, input unambiguous by Earley explicit) x {lalr, earley}: for each parse tree of a sampled '
           'sentence, parse(reconstruct(tree)) must equal the tree; the list of items the Reconstructor emits is passed to the Lean joinItems (identifier characters taken from lark\'s is_id_continue) and the assembled text compared. '
-          'Non-trivial = more than one emitted item; distinct by canonical hash.',
+          'Non-trivial = more than one emitted item; distinct by canonical hash. Corpus stream: five realistic conflict-free grammars (nested ?rules with several children, calls with repetition, rule names that are prefixes of one another), long sampled inputs, four trees through one Reconstructor in random order, each compared with a fresh Reconstructor and round-tripped.',
      not_proved=['that the tree matcher returns a derivation whose shape is the tree (hypothesis hrec of the composition theorem) is not modelled; it is observed through the round trip',
                  'lexical separability of adjacent tokens after assembly (JoinSafe) is a hypothesis: known finding F7 shows it can fail for multi-character punctuation; the generator keeps punctuation single-character'],
      assumptions=['terminal sets of the generator are lexically separable under the spacing rule (outside F7)'],
